@@ -20,6 +20,7 @@
 #include <algorithm>
 #include <cmath>
 #include <iostream>
+#include <map>
 #include <memory>
 
 using Traits = Opm::TwoPhaseMaterialTraits<double, 0, 1>;
@@ -619,9 +620,13 @@ static void propAll(vh::Rng& r, vh::PropLog& log, int cases)
 }
 
 // third round, property mode: the complete hysteresis object on the real code alone
+static std::map<std::string, long> g_keyCount;      // how often each statement of propFull was evaluated (written to prop_stats.json)
+
+static bool closeF(double a, double b, double rel, double abs0 = 0.0) { return std::isfinite(a) && std::isfinite(b) && close(a, b, rel, abs0); }
+
 static void propFull(vh::Rng& r, vh::PropLog& log, int cases)
 {
-    auto chk = [&](bool ok, const std::string& key, const std::string& detail) { log.ok(); if (!ok) log.fail(key, detail); };
+    auto chk = [&](bool ok, const std::string& key, const std::string& detail) { log.ok(); ++g_keyCount[key]; if (!ok) log.fail(key, detail); };
     static const char* FLAGS[3] = {"KR", "PC", "BOTH"};
     static const char* SYSN[3] = {"ow", "go", "gw"};
     for (int c = 0; c < cases; ++c) {
@@ -629,7 +634,12 @@ static void propFull(vh::Rng& r, vh::PropLog& log, int cases)
         const int model = r.range(0, 4);
         const std::string flag = FLAGS[r.range(0, 2)];
         const bool same = r.coin(1, 3);
-        makeFull(r, F, model, flag, /*strict=*/true, same, /*scaling=*/false, /*noisy=*/false);
+        // tables with plateaus (non-zero critical saturations: with strictly monotone tables Sncrd = Sncri = 0 and Land's
+        // formula degenerates); for different curves prefer an imbibition critical saturation above the drainage one
+        for (int attempt = 0; attempt < 6; ++attempt) {
+            makeFull(r, F, model, flag, /*strict=*/r.coin(1, 4), same, /*scaling=*/false, /*noisy=*/false);
+            if (same || (1.0 - F.sI.v[8]) >= (1.0 - F.sD.v[8])) break;
+        }
         const int krModel = F.cfg->krHysteresisModel(), pcModel = F.cfg->pcHysteresisModel();
         const std::string tag = std::string(SYSN[F.sys]) + " kr=" + std::to_string(krModel) + " pc=" + std::to_string(pcModel) + (same ? " same" : " diff") + " ";
         const Eps::Params drain = F.P.drainageParams(), imb = F.P.imbibitionParams();
@@ -693,12 +703,12 @@ static void propFull(vh::Rng& r, vh::PropLog& log, int cases)
                 }
                 if (same && m > F.tD.sw.front() && m < 1.0) {              // identical curves meet at Snmaxd: continuous start
                     const double above = Hyst::twoPhaseSatKrn(F.P, std::nextafter(m, 2.0));
-                    chk(close(above, kd, 1e-7, 1e-10), "full.killough.scan-continuous", at + " just above the reversal point " + num(above) + " drainage " + num(kd));
+                    chk(closeF(above, kd, 1e-7, 1e-10), "full.killough.scan-continuous", at + " just above the reversal point " + num(above) + " drainage " + num(kd));
                 }
                 if (krModel == 4 && m < 1.0) {                                   // wetting phase: continuous start for any pair of curves
                     const double above = Hyst::twoPhaseSatKrw(F.P, std::nextafter(m, 2.0)), kwd = Eps::twoPhaseSatKrw(drain, m);
                     if (std::fabs(Eps::twoPhaseSatKrw(imb, 1.0 - eSncri) - Eps::twoPhaseSatKrw(imb, 1.0 - eSnmaxd)) > 1e-3)
-                        chk(close(above, kwd, 1e-7, 1e-10), "full.killough.krw-scan-continuous", at + " just above the reversal point " + num(above) + " drainage " + num(kwd));
+                        chk(closeF(above, kwd, 1e-7, 1e-10), "full.killough.krw-scan-continuous", at + " just above the reversal point " + num(above) + " drainage " + num(kwd));
                 }
             }
             // --- Killough capillary pressure (primary drainage branch)
@@ -714,15 +724,24 @@ static void propFull(vh::Rng& r, vh::PropLog& log, int cases)
                 }
                 if (m < swma && m < 1.0) {
                     const double sw = std::nextafter(m, 2.0);
-                    chk(close(Hyst::twoPhaseSatPcnw(F.P, sw), Eps::twoPhaseSatPcnw(drain, sw), 1e-7, 1e-3), "full.pc.scan-continuous", at + " sw=" + num(sw));
+                    chk(closeF(Hyst::twoPhaseSatPcnw(F.P, sw), Eps::twoPhaseSatPcnw(drain, sw), 1e-7, 1e-3), "full.pc.scan-continuous", at + " sw=" + num(sw));
                     // the other end of the scanning curve (F = 1): the aligned imbibition curve at the trapped saturation
                     const double se = std::nextafter(swma, 0.0);
                     if (se > m && swma - m > 1e-3)
-                        chk(close(Hyst::twoPhaseSatPcnw(F.P, se), w * Eps::twoPhaseSatPcnw(imb, se), 1e-6, 1e-2), "full.pc.scan-end",
+                        chk(closeF(Hyst::twoPhaseSatPcnw(F.P, se), w * Eps::twoPhaseSatPcnw(imb, se), 1e-6, 1e-2), "full.pc.scan-end",
                             at + " sw=" + num(se) + " pc " + num(Hyst::twoPhaseSatPcnw(F.P, se)) + " aligned imbibition " + num(w * Eps::twoPhaseSatPcnw(imb, se)));
                 }
             }
             if (F.sys != 0) chk(!F.P.initialImb(), "full.pc.initial-imbibition-only-oil-water", at);
+            // --- EHYSTR item 5 limits the hysteresis: flag PC leaves the relperms on the drainage curves, flag KR the capillary pressure
+            for (int q = 0; q <= 10; ++q) {
+                const double sw = q / 10.0;
+                if (flag == "PC")
+                    chk(Hyst::twoPhaseSatKrn(F.P, sw) == Eps::twoPhaseSatKrn(drain, sw) && Hyst::twoPhaseSatKrw(F.P, sw) == Eps::twoPhaseSatKrw(drain, sw),
+                        "full.flag-pc.relperm-not-hysteretic", at + " sw=" + num(sw) + " krn " + num(Hyst::twoPhaseSatKrn(F.P, sw)) + " drainage " + num(Eps::twoPhaseSatKrn(drain, sw)));
+                if (flag == "KR")
+                    chk(Hyst::twoPhaseSatPcnw(F.P, sw) == Eps::twoPhaseSatPcnw(drain, sw), "full.flag-kr.pc-not-hysteretic", at + " sw=" + num(sw));
+            }
         }
         // --- a repeated saturation history changes nothing
         {
@@ -757,7 +776,10 @@ int main(int argc, char** argv)
         propAll(r, log, thorough ? 6000 : 800);
         propFull(r, log, thorough ? 6000 : 1000);
         std::ofstream st(out + "/prop_stats.json");
-        st << "{\"checked\": " << log.checked << ", \"failed\": " << log.failed << "}\n";
+        st << "{\"checked\": " << log.checked << ", \"failed\": " << log.failed << ", \"evaluated\": {";
+        bool first = true;
+        for (const auto& kv : g_keyCount) { st << (first ? "" : ", ") << "\"" << kv.first << "\": " << kv.second; first = false; }
+        st << "}}\n";
         return 0;
     }
     return 2;
